@@ -95,6 +95,46 @@ NEEDS = {
     "R2-C19-B": "Network with fromsig the base signal, an earlier module reading a slice of it and a later one the full signal",
     "R2-C20-A": "scale != 1 and a second write on the same domain",
     "R2-C20-B": "multi-valued signal whose state is a reversed or transposed view",
+    "R3-C01-A": "dense EigenSolve, eigenvalue output unseeded, eigenvector seed with zero rows (one dof of all modes)",
+    "R3-C01-B": "AssembleGeneral with a non-symmetric element matrix and a dense non-symmetric seed on the sparse output",
+    "R3-C02-A": "one module using the identical Signal object twice with different index roles (x^T A x, non-symmetric A)",
+    "R3-C02-B": "Network.append after the network has run sensitivity() once",
+    "R3-C03-A": "sparse matrix updated in place on the same scipy object, second response()",
+    "R3-C03-B": "SystemOfEquations: pass seeding x, reset, pass seeding only b",
+    "R3-C04-A": "aggregation with damped AggScaling, two responses, then two or more sensitivity() calls",
+    "R3-C04-B": "LinSolve seed whose entries sum to exactly 0 (e_i - e_j)",
+    "R3-C05-A": "CG with a block right-hand side whose columns differ strongly in magnitude",
+    "R3-C05-B": "dense symmetric indefinite matrix whose LDL factorisation takes a 2x2 pivot without row interchange",
+    "R3-C06-A": "badly scaled matrix (1e-9 or 1e9) with dependent right-hand sides",
+    "R3-C06-B": "matrix with a zero diagonal entry whose row and column hold exactly one off-diagonal coupling",
+    "R3-C07-A": "non-symmetric (or complex Hermitian) matrix given to StaticCondensation",
+    "R3-C07-B": "one solver instance: first an indefinite matrix (Cholesky fails), then a positive-definite one",
+    "R3-C08-A": "bc given, complex scaling vector x, real element matrix",
+    "R3-C08-B": "3-D AssemblePoisson with material_property != 1",
+    "R3-C09-A": "strip-like domain with int(radius) > min(nelx, nely)",
+    "R3-C09-B": "'wrap' padding on exactly one side of an axis",
+    "R3-C10-A": "sub-problems where Newton overshoots a barrier level by more than 10x (checked through the KKT residual)",
+    "R3-C10-B": "single design signal whose sensitivity buffer is reused in place (sliced or pre-allocated)",
+    "R3-C11-A": "sparse generalised problem solved in buckling mode",
+    "R3-C11-B": "eigenvector with an exactly zero mean entry (two-mass oscillator)",
+    "R3-C12-A": "2-D domain with unitz != 1 and two modules with the same material",
+    "R3-C12-B": "two Strain/Stress modules on domains of equal dimension but different element sizes",
+    "R3-C13-A": "write_to_vti(scale != 1) followed by geometry queries",
+    "R3-C13-B": "evaluation point given as an integer array",
+    "R3-C14-A": "3-D domain with nsampling = 9 and material on the face where the second in-layer index is 0",
+    "R3-C14-B": "second evaluation of the same OverhangFilter with a different base layer",
+    "R3-C15-A": "contract_multi, then d[idx, :] = 0, then contract_multi again",
+    "R3-C15-B": "dyad with real u and complex v (d * c, d @ B)",
+    "R3-C16-A": "data of small magnitude (1e-9) or small relative spread",
+    "R3-C16-B": "m.p changed on an existing PNorm (continuation)",
+    "R3-C17-A": "three or more variable signals with an empty one in the middle",
+    "R3-C17-B": "exactly one variable that is a basic slice of a 1-D float64 signal",
+    "R3-C18-A": "full slice s[:] / s[...] with the base sensitivity still None and a scalar / row / real-on-complex first contribution",
+    "R3-C18-B": "a view of other entries of the same base assigned to a slice (s[5:10].state = s[0:5].state[::-1])",
+    "R3-C19-A": "Network with two or more tosig signals produced by different modules",
+    "R3-C19-B": "complex-typed input with non-zero entries whose imaginary part is exactly 0",
+    "R3-C20-A": "WriteToVTI with saveto without '.vti' and overwrite=False",
+    "R3-C20-B": "point data given as a column-wise block vector of shape (n, nvec)",
 }
 
 
